@@ -1,8 +1,9 @@
 (* kind "tmap": same script as harness/jlsrun_k_tmap.h (see there for the grammar).
-   argv[2] = "asan" (default): the model's physical array size is checked (a read of
-   x[length] with length = allocated cells is FAULT:ASAN); "plain": unchecked build, the
-   cell after the last entry holds junk; "fixed": the model of the minimally repaired code
-   (TmapModel.tmap_*_fixed).  argv[3] = junk value (signed hex, default 0). *)
+   argv[2]: absent / "cur" = the model of the current code (TmapModel.tmap_sample_id_to_timestamp,
+   tmap_timestamp_to_sample_id).  "old-asan" / "old-plain" = the model of the code before the two
+   repairs (TmapModel.*_old): with the physical array size checked (a read of x[length] with
+   length = allocated cells is FAULT:ASAN), resp. unchecked with junk in the cell after the last
+   entry; argv[3] = junk value (signed hex, default 0). *)
 open Jlsmodel_ext
 open Util
 let txs32 s = let x = !s in
@@ -18,8 +19,9 @@ let int_of_z (v : z) : int = int_of_shex (hex_of_z v)
 let fault_str = function
   | OOB_read -> "ASAN" | FP_invalid -> "FPINV" | Int_overflow -> "OVF" | Nonterm -> "TIMEOUT"
 let () = register "tmap" (fun ic ->
-  let checked = not (Array.length Sys.argv > 2 && Sys.argv.(2) = "plain") in
-  let fixed = Array.length Sys.argv > 2 && Sys.argv.(2) = "fixed" in
+  let mode = if Array.length Sys.argv > 2 then Sys.argv.(2) else "cur" in
+  let old = (mode = "old-asan" || mode = "old-plain") in
+  let checked = (mode = "old-asan") in
   let junk = if Array.length Sys.argv > 3 then z_of_hex Sys.argv.(3) else Z0 in
   iter_lines ic (fun line ->
     match split_ws line with
@@ -68,10 +70,10 @@ let () = register "tmap" (fun ic ->
         | [] -> ()
         | q :: tl ->
           let v = z_of_hex (String.sub q 1 (String.length q - 1)) in
-          let r = if fixed then (if q.[0] = 's' then tmap_sample_id_to_timestamp_fixed tm v
-                                 else tmap_timestamp_to_sample_id_fixed tm v)
-                  else if q.[0] = 's' then tmap_sample_id_to_timestamp junk tm v
-                  else tmap_timestamp_to_sample_id junk tm v in
+          let r = if old then (if q.[0] = 's' then tmap_sample_id_to_timestamp_old junk tm v
+                               else tmap_timestamp_to_sample_id_old junk tm v)
+                  else if q.[0] = 's' then tmap_sample_id_to_timestamp tm v
+                  else tmap_timestamp_to_sample_id tm v in
           (match r with
            | QVal x -> Buffer.add_string buf (" 0:" ^ hex_of_z x); run tl
            | QErr rc -> Buffer.add_string buf (Printf.sprintf " %d:-" (int_of_z rc)); run tl
